@@ -242,6 +242,95 @@ def sup_search(ctx, n):
                       {"kind": "float-sup", "entries": small, "observers": dobs, "field": field, "sumup": sumup})
 
 
+# ------------------------------------------------------------------ one pixel exactly on a documented singular point
+def g_singular(rng):
+    """a source with exact (dyadic) geometry, unit orientation, and a global point where its field is singular"""
+    pos = [rng.randint(-2, 2) / 2 for _ in range(3)]
+    if rng.random() < 0.5:
+        s = magpy.misc.Dipole(moment=l2b.rvec(rng, -1, 1), position=pos)
+        return s, "Dipole", pos
+    verts = [[rng.randint(-4, 4) / 4 for _ in range(3)] for _ in range(3)]
+    while np.linalg.norm(np.cross(np.subtract(verts[1], verts[0]), np.subtract(verts[2], verts[0]))) == 0:
+        verts = [[rng.randint(-4, 4) / 4 for _ in range(3)] for _ in range(3)]
+    s = magpy.misc.Triangle(polarization=l2b.rvec(rng, -1, 1), vertices=verts, position=pos)
+    return s, "Triangle", (np.array(verts[rng.randrange(3)]) + np.array(pos)).tolist()
+
+
+def sing_eval(dentries, sing_entry, pixels, field):
+    """None or detail: every entry of the list call against ITS OWN single call; entries that do not contain the
+    singular source must be finite and unaffected"""
+    f = magpy.getB if field == "B" else magpy.getH
+
+    def sens():
+        return magpy.Sensor(pixel=pixels)
+    try:
+        got = f([l2b.load_obj(d) for d in dentries], sens(), squeeze=False)
+    except Exception as e:   # pylint: disable=broad-except
+        return f"raised {type(e).__name__}: {e}"
+    for l, d in enumerate(dentries):
+        own = f(l2b.load_obj(d), sens(), squeeze=False)[0]
+        if l != sing_entry:
+            if not np.all(np.isfinite(own)):
+                return None                       # another source happens to be singular there too: uninformative
+            if not np.all(np.isfinite(got[l])):
+                return (f"entry {l} does not contain the singular source but has non-finite values in the list call "
+                        f"(its own call is finite)")
+        fin = np.isfinite(own) & np.isfinite(got[l])
+        if not np.array_equal(np.isfinite(own), np.isfinite(got[l])):
+            return f"entry {l}: non-finite pattern differs from its own single call"
+        scale = max(float(np.abs(own[fin]).max()) if fin.any() else 0.0, 1e-300)
+        if fin.any() and float(np.abs(own[fin] - got[l][fin]).max()) > 1e-9 * scale:
+            return f"entry {l} differs from its own single call"
+    return None
+
+
+def sing_search(ctx, n):
+    rng = ctx.rng
+    for _ in range(n):
+        sing, kind, pt = g_singular(rng)
+        f0 = rng.choice(["B", "H"])
+        probe = (magpy.getB if f0 == "B" else magpy.getH)(sing, pt)
+        ctx.bump("singular:" + kind + (":non-finite" if not np.all(np.isfinite(probe)) else ":finite"))
+        # >= 2 entries, one of them a collection with > 1 source; the singular source sits in one of them
+        others, _d = l2b.real_setup(rng, max_entries=2)
+        a, _ = l2b.real_source(rng)
+        b, _ = l2b.real_source(rng)
+        l2b.rnd_pose(rng, a, maxlen=1)
+        l2b.rnd_pose(rng, b, maxlen=1)
+        for o in others:
+            for leaf in l2b.leaves_of(o):
+                leaf._position, leaf._orientation = leaf._position[:1], leaf._orientation[:1]
+        where = rng.choice(["bare", "in-collection"])
+        if where == "bare":
+            entries = [magpy.Collection(a, b), sing] + others
+            sing_entry = 1
+        else:
+            entries = [magpy.Collection(a, sing), b] + others
+            sing_entry = 0
+        order = list(range(len(entries)))
+        rng.shuffle(order)
+        entries = [entries[i] for i in order]
+        sing_entry = order.index(sing_entry)
+        pixels = [pt] + [l2b.rvec(rng, -4, 4) for _ in range(rng.randint(1, 2))]
+        dentries = [l2b.dump_obj(e) for e in entries]
+        ctx.case(("singular", kind, where, f0, repr(dentries)[:300]), True)
+        res = sing_eval(dentries, sing_entry, pixels, f0)
+        if res is None:
+            continue
+        # smallest list that still fails: the singular entry plus as few others as possible
+        keep = [i for i in range(len(dentries)) if i != sing_entry]
+        def fails(ks):
+            idx = sorted(ks + [sing_entry])
+            return sing_eval([dentries[i] for i in idx], idx.index(sing_entry), pixels, f0) is not None
+        keep = shrink_list(keep, fails, max_steps=20)
+        idx = sorted(keep + [sing_entry])
+        small = [dentries[i] for i in idx]
+        res2 = sing_eval(small, idx.index(sing_entry), pixels, f0) or res
+        ctx.impl_fail(f"collection-sum/non-finite-leak:{kind}:{where}", res2 + f" (pixel exactly on the {kind}'s singular point)",
+                      {"kind": "float-singular", "entries": small, "sing_entry": idx.index(sing_entry), "pixels": pixels,
+                       "field": f0})
+
+
 # ------------------------------------------------------------------ histories: field call -> edit -> field call
 def hist_search(ctx, n):
     rng = ctx.rng
@@ -395,6 +484,7 @@ def run(ctx):
     run_guarded(ctx, lambda: exact_oracle(ctx, sub), "C05 exact oracle")
     run_guarded(ctx, lambda: sup_search(ctx, ctx.n(150, 4000) * (4 if big else 1)), "C05 superposition search")
     run_guarded(ctx, lambda: lin_search(ctx, ctx.n(25, 500) * (3 if big else 1)), "C05 linearity search")
+    run_guarded(ctx, lambda: sing_search(ctx, ctx.n(60, 1500) * (3 if big else 1)), "C05 singular-point search")
     run_guarded(ctx, lambda: hist_search(ctx, ctx.n(150, 3000) * (4 if big else 1)), "C05 history search")
 
 
@@ -408,6 +498,8 @@ def replay(ctx, obj):
     elif kind == "float-sup":
         res = sup_fails(rp["entries"], rp["observers"], rp["field"], rp["sumup"])
         res = None if res is None else res[1]
+    elif kind == "float-singular":
+        res = sing_eval(rp["entries"], rp["sing_entry"], rp["pixels"], rp["field"])
     elif kind == "history":
         r = l2b_hist.run_history(rp["history"])
         res = None if r is None else f"field op #{r[0]}: {r[2]}"
